@@ -242,6 +242,17 @@ func runC11(c *core.Ctx) {
 			}
 		}
 	}
+	// a limit given by flag or variable decides even when the configuration file names another one,
+	// also when it restates the built-in default of 10
+	for _, n := range []int{10, 4, 12} {
+		for _, k := range []int{3, 20} {
+			for _, l := range []int{n - 1, n, n + 1} {
+				for _, via := range []string{"flag-over-config", "env-over-config"} {
+					cases = append(cases, cli{chainBook(l, nil), n, fmt.Sprintf("%s:%d", via, k), cmds[r.Intn(len(cmds))], fmt.Sprintf("chain %d limit %d via %s (config says %d)", l, n, via, k)})
+				}
+			}
+		}
+	}
 	for cl := 1; cl <= 4; cl++ {
 		for _, n := range []int{1, 3, 10, 100000000} {
 			cases = append(cases, cli{cycleBook(cl, cl-1), n, "flag", cmds[r.Intn(len(cmds))], fmt.Sprintf("cycle %d limit %d via flag", cl, n)})
@@ -262,6 +273,15 @@ func runC11(c *core.Ctx) {
 		files := map[string]string{"food.yaml": bookText(bb), "log.yaml": "2021/01/24:\n  r01: 1\n  c01: 2\n  p01: 1\n"}
 		args := []string{"--no-color", "-d", "food.yaml", "-l", "log.yaml"}
 		env := map[string]string{}
+		if i := strings.Index(t.via, "-over-config:"); i > 0 {
+			files["hr.conf"] = fmt.Sprintf("[Resolver]\nMaxDepth=%s\n", t.via[i+len("-over-config:"):])
+			args = append(args, "--config", "hr.conf")
+			if t.via[:i] == "flag" {
+				args = append(args, "--maxdepth", fmt.Sprint(t.n))
+			} else {
+				env["HR_MAXDEPTH"] = fmt.Sprint(t.n)
+			}
+		}
 		switch t.via {
 		case "flag":
 			args = append(args, "--maxdepth", fmt.Sprint(t.n))
